@@ -35,11 +35,13 @@ KNOWN_KINDS = {
     'extract-no-names': 'extract() without names raises IndexError',
     'result-label-blocks-reload': 'result(x, label) relabels a live elementary leaf; an earlier archive of x cannot be read',
     'xml-empty-label': 'XML stores label "" as no label; the same-session reload raises RuntimeError (uid in use)',
+    'newer-document-updates-restored': 'numbers restored from an OLDER document are live; reading a NEWER document of the same leaves adds the '
+                                       'correlations declared between the writes, so what those restored numbers report changes at that read',
     'redeclared-correlation-order': 'two documents record DIFFERENT coefficients for the same pair of leaves (r re-declared between '
                                     'the writes): the document read first wins, covariances depend on the load order',
 }
 # repaired in /repo (fix: commits); the oracle reports them as failures again if they come back:
-FIXED_KINDS = ('add-partial', 'add-undeclared-complex-residue', 'write-after-failed-add', 'load-overwrites-correlation',
+FIXED_KINDS = ('load-overwrites-ensemble', 'add-partial', 'add-undeclared-complex-residue', 'write-after-failed-add', 'load-overwrites-correlation',
                'json-load-relists-complex')
 
 def reports(s):
@@ -88,6 +90,14 @@ def check_history(k0, ops, fresh_ids=True):
     s = arch.ASession(k0)
     fails = []
     restored = set()                      # uids seen in loaded archives of this session
+    declared_here = set()                 # uids of leaves declared (not restored) in the current session
+    def leaf_snapshot():
+        out = {}
+        for uid, n in list(s.ctx()._registered_leaf_nodes.items()):
+            out[uid] = (n.label, n.u, n.df, n.independent, tuple(getattr(n, 'complex', ()) or ()),
+                        dict(n.correlation) if hasattr(n, 'correlation') else None,
+                        frozenset(n.ensemble) if hasattr(n, 'ensemble') else None)
+        return out
     def fail(kind, i, o, **kw):
         d = {'kind': kind, 'step': i, 'op': o, 'k0': k0, 'history': [list(x) for x in ops[:i + 1]]}
         d.update(kw); fails.append(d)
@@ -100,6 +110,7 @@ def check_history(k0, ops, fresh_ids=True):
         before_a = s.t_archive(a) if a is not None else None
         before_all = [s.t_archive(x) for x in s.ars]
         before_rep = reports(s) if k in ('add', 'extract', 'write', 'read', 'copy', 'freeze', 'thaw') else None
+        before_leaves = leaf_snapshot() if k in ('read', 'copy', 'thaw') else None
         n_before = len(a) if a is not None else 0
         residue = has_residue(a) if a is not None else False
         const = has_constant(s, a) if a is not None else False
@@ -176,7 +187,36 @@ def check_history(k0, ops, fresh_ids=True):
             ch_corr = any(corr2.get(kk) != v for kk, v in corr.items())
             if ch_rows or ch_corr:
                 listed = any(isinstance(getattr(n, 'complex', None), list) for n in list(s.ctx()._registered_leaf_nodes.values()))
-                if k in ('read', 'copy', 'thaw') and ch_corr: fail('load-overwrites-correlation', i, o)
+                def newer_document_updates_restored():
+                    # precisely: every leaf that was registered before is unchanged except that leaves RESTORED from an
+                    # older document (not declared in this session) gained correlation entries, each of which is an entry
+                    # of that leaf's record in the document just read; at least one leaf gained one
+                    src = s.ars[target] if k == 'thaw' else (s.ars[-1] if outcome == 'ok' else None)
+                    rec = getattr(src, '_leaf_nodes', None) if src is not None else None
+                    if rec is None: return False
+                    after = leaf_snapshot(); gained = 0
+                    for uid, b in before_leaves.items():
+                        a2 = after.get(uid)
+                        if a2 is None or a2[:5] != b[:5]: return False
+                        if a2[5] == b[5] and a2[6] == b[6]: continue
+                        if uid in declared_here or uid not in rec: return False
+                        if a2[6] != b[6]:
+                            # ensemble members the newer document adds (the ensemble grew between the writes)
+                            if b[6] is None or a2[6] is None or not (b[6] < a2[6]): return False
+                            if not (a2[6] - b[6]) <= frozenset(getattr(rec[uid], 'ensemble', ()) or ()): return False
+                            gained += 1
+                        if a2[5] == b[5]: continue
+                        if b[5] is None or a2[5] is None: return False
+                        arch_c = dict(getattr(rec[uid], 'correlation', ()) or ())
+                        for kk, v in b[5].items():
+                            if a2[5].get(kk) != v: return False
+                        for kk, v in a2[5].items():
+                            if kk not in b[5]:
+                                if arch_c.get(kk) != v: return False
+                                gained += 1
+                    return gained > 0
+                if k in ('read', 'copy', 'thaw') and newer_document_updates_restored(): fail('newer-document-updates-restored', i, o)
+                elif k in ('read', 'copy', 'thaw') and ch_corr: fail('load-overwrites-correlation', i, o)
                 elif k in ('read', 'copy', 'thaw') and listed: fail('json-load-relists-complex', i, o)
                 else: fail('purity-reports-changed', i, o, rows=ch_rows, correlations=ch_corr)
         # ---- same-session read of a document written in this session must succeed
@@ -188,7 +228,11 @@ def check_history(k0, ops, fresh_ids=True):
             c = s.ars[-1]
             for v in list(c._tagged_real.values()) + list(c._untagged_real.values()):
                 if getattr(v, 'is_elementary', False): restored.add(v.uid)
-        if k == 'new': restored = set()
+        if k == 'new': restored = set(); declared_here = set()
+        if outcome == 'objs' and k in ('real', 'complex', 'ens'):
+            for x in s.objs[-(len(o[1]) if k == 'ens' else 1):]:
+                for r in ([x] if isinstance(x, s.lib.UncertainReal) else [x.real, x.imag]):
+                    if r.is_elementary: declared_here.add(r.uid)
         if fresh_ids and outcome == 'objs' and k in ('real', 'complex'):
             x = s.objs[-1]
             uids = [x.uid] if k == 'real' else [x.real.uid, x.imag.uid]
@@ -264,6 +308,12 @@ def order_check(case_seed):
             # from this writer history, never from the outcome
             current[frozenset((i, j))] = r
             core.set_correlation(r, xs[i], xs[j]); script.append('set_correlation(%r, x%d, x%d)' % (r, i, j))
+        if ens and t > 0 and not same_time and rng.random() < 0.5:
+            # the ensemble GROWS between the writes (what the predictions of a line fit do)
+            from GTC import lib
+            y_new = core.ureal(20.0 + t, 0.125 * (t + 1), ens[0].df, independent=False, label='g%d' % t)
+            lib.append_real_ensemble(ens[0], y_new); ens = list(ens) + [y_new]
+            script.append('e%d = ureal(%g, %g, df, independent=False); append_real_ensemble(e0, e%d)' % (len(ens) - 1, 20.0 + t, 0.125 * (t + 1), len(ens) - 1))
         members = rng.sample(range(n), rng.randint(1, 3))
         i, j, k = (rng.randrange(n) for _ in range(3))
         y = core.result(xs[i] * xs[j] + xs[k], label='y%d' % t)
@@ -383,9 +433,8 @@ def search(rng, tier, broken):
             f = run(31, ops)
             if f: return {'tried': tried, 'failing': f, 'known_kinds_seen': known_seen}
     for i in range(n):
-        # (multi-archive reader sessions are the business of order_check: there a newer document legitimately ADDS
-        #  correlations to numbers restored from an older one -- reported, not fed to the purity check)
-        s = arch.gen_history(rng, 40 + i % 7, rng.randint(12, 40), rng.random() < 0.2)
+        s = (arch.gen_multi(rng, 40 + i % 7) if i % 5 == 4 else
+             arch.gen_history(rng, 40 + i % 7, rng.randint(12, 40), rng.random() < 0.2))
         ops = s.ops; k0 = s.k0; s.close(); tried += 1
         if any(o[0] == 'new' and o[1] <= k0 for o in ops): continue       # reused context ids: outside the property
         f = run(k0, ops)
@@ -518,3 +567,34 @@ def kf_redeclared_correlation_order():
     c01, c10 = cov(0), cov(1)
     return (c01 == (-0.234375, -0.234375) and c10 == (0.1171875, 0.1171875)), \
         'fresh session, cov(x1,x2): reading archive 0 then 1 -> %r, reading 1 then 0 -> %r' % (c01[0], c10[0])
+
+def kf_load_overwrites_ensemble():
+    warnings.simplefilter('ignore')
+    from GTC import type_a, persistence as pr
+    new_context(906)
+    x = [0.1, 0.1, 0.1, 0.3, 0.3, 0.3, 0.5, 0.5, 0.5, 0.7, 0.7, 0.7, 0.9, 0.9, 0.9]
+    y = [0.028, 0.029, 0.029, 0.084, 0.083, 0.081, 0.135, 0.131, 0.133, 0.180, 0.181, 0.183, 0.215, 0.230, 0.216]
+    fit = type_a.line_fit(x, y); a, b = fit.a_b
+    ar = pr.Archive(); ar.add(a=a, b=b); s = pr.dumps_json(ar)
+    x0 = fit.x_from_y([0.0712, 0.0716])
+    before = (x0.df, (x0 * b).df)
+    pr.loads_json(s)
+    after = (x0.df, (x0 * b).df)
+    x1 = fit.x_from_y([0.0712, 0.0716])               # the shared set must still be shared after the load
+    later = (x1.df, (x1 * b).df)
+    return (before != after or later != before), \
+        'line_fit a,b archived; x0 = fit.x_from_y(...): (x0.df, (x0*b).df) before loads_json %r, after %r; a prediction made after the load %r' % (before, after, later)
+
+def kf_newer_document_updates_restored():
+    core, pr = _fresh(907)
+    x1 = core.ureal(1.0, 0.5, independent=False); x2 = core.ureal(2.0, 0.25, independent=False)
+    a = pr.Archive(); a.add(x1=x1, x2=x2); da = pr.dumps_json(a)            # document A
+    core.set_correlation(0.5, x1, x2)                                         # declared between the writes
+    b = pr.Archive(); b.add(x1=x1, x2=x2); db = pr.dumps_json(b)            # document B
+    new_context(908)
+    ra = pr.loads_json(da); r1, r2 = ra.extract('x1', 'x2')
+    before = ((r1 + r2).u, core.get_correlation(r1, r2))
+    pr.loads_json(db)
+    after = ((r1 + r2).u, core.get_correlation(r1, r2))
+    return (before[1] == 0.0 and after[1] == 0.5 and before[0] != after[0]), \
+        'numbers restored from document A: (u(x1+x2), r(x1,x2)) = %r; after reading the newer document B: %r' % (before, after)
